@@ -219,12 +219,32 @@ theorem teardown_reverse_with_delegation (cfg : Cfg) (o : OSet) (w : World) :
         ∀ u ∈ l1, Pko.Props.C04.PhaseDone cfg o.owner (remoteTeardown o) u.1 u.2 :=
   Pko.Props.C04.teardown_reverse cfg o.owner (remoteTeardown o) (remoteTeardown_events o) o.phases w
 
+/-- handing the pause to an existing phase object (fix C09-a) writes no managed object. -/
+theorem remoteSyncPaused_events (o : OSet) (ph : PhaseSpec) (w : World) :
+    (remoteSyncPaused o ph w).events = w.events := by
+  simp only [remoteSyncPaused]
+  split
+  · rfl
+  · exact propagatePause_events _ _ _ _
+
+/-- **a paused ObjectSet pauses every existing phase object that comes after the phase its pass
+stops at** (fix C09-a): after `syncPausedAfter` each such phase object carries `paused = true`. -/
+theorem remoteSyncPaused_pauses (o : OSet) (ph : PhaseSpec) (w : World) (hp : o.lifecycle = .paused)
+    (cur : OPhase) (hc : w.phases (phaseName o ph) = some cur) :
+    ∃ p, (remoteSyncPaused o ph w).phases (phaseName o ph) = some p ∧ p.paused = true := by
+  simp only [remoteSyncPaused, hc, propagatePause, hp]
+  by_cases h : cur.paused = true
+  · exact ⟨cur, by simp [h, hc], h⟩
+  · have h' : cur.paused = false := by simpa using h
+    refine ⟨{ cur with paused := true, gen := cur.gen + 1, rv := (w.tick).store.nextRV }, ?_, rfl⟩
+    simp [h', setPhase, freshRV, World.tick]
+
 /-- C09's hands-off theorem instantiated with the real delegated-phase behaviour. -/
 theorem paused_no_object_writes_with_delegation (cfg : Cfg) (name : String) (s : Sys) (mem : OSet)
     (hget : s.sets name = some mem) (hpaused : mem.lifecycle = .paused) (hnd : mem.deleting = false) :
     (reconcile cfg remotes name s).1.w.events = s.w.events :=
   Pko.Props.C09.paused_no_object_writes cfg remotes name s mem hget
-    (fun o ph w => remoteReconcile_events o ph w) hpaused hnd
+    (fun o ph w => remoteReconcile_events o ph w) (fun o ph w => remoteSyncPaused_events o ph w) hpaused hnd
 
 /-- Non-vacuity: a delegated phase whose object reports Available for its generation passes; after
 the ObjectSet is paused the same report is not trusted any more (the pause patch moves the
